@@ -65,7 +65,25 @@ impl<'a, S: UtxoStore> InputSelector<'a, S> {
         }
     }
 
+    // the search space may be padded with utxos that match only some of the
+    // constraints, so the explicit ones are enforced on what was fetched
+    fn meets_constraints(utxo: &Utxo, criteria: &CanonicalQuery) -> bool {
+        let address_ok = criteria
+            .address
+            .as_ref()
+            .map_or(true, |address| &utxo.address == address);
+
+        let ref_ok = criteria.refs.is_empty() || criteria.refs.contains(&utxo.r#ref);
+
+        address_ok && ref_ok
+    }
+
     fn pick_from_set(utxos: UtxoSet, criteria: &CanonicalQuery) -> UtxoSet {
+        let utxos: UtxoSet = utxos
+            .into_iter()
+            .filter(|x| Self::meets_constraints(x, criteria))
+            .collect();
+
         let target = criteria
             .min_amount
             .clone()
